@@ -19,11 +19,11 @@ RULE = (
     "among the lookups. read_namespace must equal R-order's list exactly (names, versions, files, order, nothing from "
     "lookup directories); read_files must give direct = requested, transitive = closure minus direct, both sorted and "
     "disjoint, with the same types; all perturbed runs must give byte-identical signatures; nested / same-name directory "
-    "sets must be rejected exactly per the predicate. Non-trivial: >=3 definitions with >=2 versions of one name; distinct "
+    "sets must be rejected exactly per the predicate; a directory in which two files define the same name and version (other extension and/or a port-ID prefix, same or different text) must be rejected or yield one composite per file. Non-trivial: >=3 definitions with >=2 versions of one name; distinct "
     "by (tree, perturbation tuple)."
 )
 ASSUMPTIONS = ["which of several simultaneous errors is reported may depend on order: only accept/reject and successful results are compared"]
-MIN_MONITORS = {"config-result": 20000, "order-oracle": 2000, "determinism-compare": 15000, "read-files-oracle": 700, "directory-predicate": 800, "rglob-shuffles": 10000}
+MIN_MONITORS = {"config-result": 20000, "order-oracle": 2000, "determinism-compare": 15000, "read-files-oracle": 700, "directory-predicate": 800, "rglob-shuffles": 10000, "duplicate-files": 2000}
 THOROUGH_MIN_SCALE = 8
 
 SPELLINGS = ["abs-path", "abs-str-slash", "relative", "relative-path-obj", "dotdot", "symlink"]
@@ -31,8 +31,8 @@ SPELLINGS = ["abs-path", "abs-str-slash", "relative", "relative-path-obj", "dotd
 
 def plan(tier):
     if tier == "quick":
-        return {"shards": 16, "params": {"n": 480, "hashseeds": 4, "shuffles": 3, "spellings": 4, "time_cap_s": 400}}
-    return {"shards": 16, "params": {"n": 4000, "hashseeds": 12, "shuffles": 5, "spellings": 6, "time_cap_s": 2400}, "hard_timeout_s": 4000}
+        return {"shards": 16, "params": {"n": 480, "n_dup": 1600, "hashseeds": 4, "shuffles": 3, "spellings": 4, "time_cap_s": 400}}
+    return {"shards": 16, "params": {"n": 4000, "n_dup": 16000, "hashseeds": 12, "shuffles": 5, "spellings": 6, "time_cap_s": 2400}, "hard_timeout_s": 4000}
 
 
 def expected_sig_order(ns, indices, paths, base):
@@ -235,11 +235,71 @@ def run_shard(ctx):
             for hs, _o in outs:
                 ctx.sigs.add("%s|%s|%s" % (t["id"], cfg["id"], hs) + str(ctx.shard))
     ctx.evaluations += sum(len(t["configs"]) for t in trees) * max(1, len(outs)) - len(trees)
+    pydsdl = import_pydsdl()
+    for _ in range(ctx.share(p["n_dup"])):
+        duplicate_case(ctx, pydsdl, rng.randrange(1 << 40), ctx.tmp)
     ctx.notes["hash_seeds_per_shard"] = len(outs)
     shutil.rmtree(work, ignore_errors=True)
 
 
+def duplicate_case(ctx, pydsdl, seed, work):
+    """
+    Two files of one root namespace directory that define the same full name and version (Foo.1.0.dsdl next to
+    Foo.1.0.uavcan, or next to 7000.Foo.1.0.dsdl): "exactly one composite per definition file - none missing" leaves two
+    outcomes, an InvalidDefinitionError or one composite per file; silently dropping one of the files is not among them.
+    """
+    from pathlib import Path
+
+    rng = random.Random(seed)
+    base = (work / "dup").resolve()
+    shutil.rmtree(base, ignore_errors=True)
+    root = base / "dupns"
+    sub = root.joinpath(*rng.choice([[], ["a"], ["a", "b"]]))
+    sub.mkdir(parents=True)
+    short, ver = rng.choice(["Foo", "Bar", "X"]), (rng.choice([0, 1, 2]), rng.choice([1, 2, 5]))
+    bodies = ["uint8 a\n@sealed\n", "uint16 a\n@sealed\n", "@sealed\n", "uint8 a\n@extent 64\n", "uint8 a\n@sealed\n---\n@sealed\n"]
+    same_text = rng.random() < 0.5
+    t1 = rng.choice(bodies)
+    t2 = t1 if same_text else rng.choice([b for b in bodies if b != t1])
+    how = rng.choice(["extension", "port", "extension+port"])
+    f1 = sub / ("%s.%d.%d.dsdl" % (short, ver[0], ver[1]))
+    f2 = sub / ("%s%s.%d.%d%s" % ("7000." if "port" in how else "", short, ver[0], ver[1], ".uavcan" if "extension" in how else ".dsdl"))
+    f1.write_text(t1)
+    f2.write_text(t2)
+    others = []
+    for i in range(rng.randrange(0, 3)):
+        o = root / ("Other%d.1.%d.dsdl" % (i, i))
+        o.write_text("uint8 o\n@sealed\n")
+        others.append(o)
+    case = {"duplicate": seed, "files": [str(f1.relative_to(base)), str(f2.relative_to(base))], "same_text": same_text}
+    calls = [("read_namespace", lambda: pydsdl.read_namespace(root, [], allow_unregulated_fixed_port_id=True), [f1, f2] + others),
+             ("read_files", lambda: pydsdl.read_files(rng.sample([f1, f2], 2), [root], allow_unregulated_fixed_port_id=True)[0], [f1, f2])]
+    try:
+        for name, fn, want in calls:
+            ctx.mon("duplicate-files")
+            try:
+                out = fn()
+            except pydsdl.InvalidDefinitionError:
+                ctx.cls("duplicate-rejected")
+                continue
+            except Exception as ex:  # noqa
+                ctx.violation("C10/foreign-exception", "%s over a directory holding %s and %s: %r escaped" % (name, f1.name, f2.name, ex), case)
+                continue
+            got = sorted(str(Path(t.source_file_path).resolve()) for t in out)
+            if got != sorted(str(x.resolve()) for x in want):
+                ctx.violation("C10/duplicate-definition-dropped", "%s over %s and %s (%s text) returned composites for %r only" % (
+                    name, f1.name, f2.name, "same" if same_text else "different", [os.path.basename(g) for g in got]), case)
+            else:
+                ctx.cls("duplicate-both-returned")
+    finally:
+        shutil.rmtree(base, ignore_errors=True)
+    ctx.case(("dup", how, same_text, short, ver, t1, t2), True, classes=["duplicate-" + how])
+
+
 def replay(ctx, case):
+    if "duplicate" in case:
+        duplicate_case(ctx, import_pydsdl(), case["duplicate"], ctx.tmp)
+        return
     print("C10 replays re-run the whole perturbation matrix for the recorded tree seed")
     import_pydsdl()
     ns = GN.gen_namespace(random.Random(case["seed"]))
